@@ -91,7 +91,7 @@ Definition ex_c2 : collinfo :=
   {| ci_id := 102; ci_name := "c2"; ci_tid := 9102; ci_src := [("s2_v0", "s2")]; ci_tgt := [("t_v1", "t")]; ci_parts := [("_default", 8%Z)]; ci_dropped := false |}.
 Definition ex_msg2 (id ts : N) : smsg := {| m_kind := KInsert; m_id := id; m_coll := 102; m_part := 1; m_pname := "_default"; m_ts := ts; m_rows := 1; m_pospch := false |}.
 Definition ex_sched : list clabel :=
-  [CSeq (StartColl ex_coll); CSeq (StartColl ex_c2);
+  [CSeq (Config 2 1); CSeq (StartColl ex_coll); CSeq (StartColl ex_c2);
    CSeq (Feed 101 "c1" "s" {| p_begin := 10; p_end := 20; p_starts := [10]; p_msgs := [ex_msg 1 12] |} []);
    CPark 101 "c1" "s" {| p_begin := 20; p_end := 30; p_starts := [20]; p_msgs := [ex_msg 2 25] |} [] PLock;
    CSeq (Feed 102 "c2" "s2" {| p_begin := 500; p_end := 510; p_starts := [500]; p_msgs := [ex_msg2 3 505] |} []);
